@@ -3,6 +3,7 @@ package mon
 import (
 	"bytes"
 	"fmt"
+	"sort"
 
 	"github.com/brocaar/lorawan"
 
@@ -320,6 +321,55 @@ func c04JoinAccept(c *core.Ctx, r *core.RNG, key [16]byte, major byte) {
 			c.Violate(fmt.Sprintf("C04|joinaccept|validate-disagrees|%s|optneg=%v|lib=%v", pt.name, ja.DLSettings.OptNeg, got), "after %s: Validate=%v model=%v", pt.name, got, model)
 		}
 		c.Shape("joinaccept", pt.name, ja.DLSettings.OptNeg, cfKind, model)
+	}
+
+	// plausible wrong MICs: the value the *other* form of the specification (or a near miss of it) gives for
+	// the same frame. A validator that "also accepts" one of them agrees with the model everywhere else.
+	{
+		msg10 := append([]byte{mhdr}, sj.Payload()...)
+		pre := func(rt byte, e [8]byte, n uint16) []byte {
+			out := []byte{rt}
+			for i := 7; i >= 0; i-- {
+				out = append(out, e[i])
+			}
+			return append(out, byte(n), byte(n>>8))
+		}
+		var revEUI [8]byte
+		for i := range jEUI {
+			revEUI[i] = jEUI[7-i]
+		}
+		forged := map[string][4]byte{
+			"1.0-form":                  spec.MIC4(key, msg10),
+			"1.1-form":                  spec.MIC4(key, append(pre(reqType, jEUI, devNonce), msg10...)),
+			"1.1-form-joinreqtype":      spec.MIC4(key, append(pre(0xff, jEUI, devNonce), msg10...)),
+			"1.1-form-rejoin0":          spec.MIC4(key, append(pre(0, jEUI, devNonce), msg10...)),
+			"1.1-form-eui-not-reversed": spec.MIC4(key, append(pre(reqType, revEUI, devNonce), msg10...)),
+			"1.1-form-nonce-swapped":    spec.MIC4(key, append(pre(reqType, jEUI, devNonce<<8|devNonce>>8), msg10...)),
+			"payload-without-mhdr":      spec.MIC4(key, sj.Payload()),
+			"zero":                      {},
+		}
+		names := make([]string, 0, len(forged))
+		for n := range forged {
+			names = append(names, n)
+		}
+		sort.Strings(names)
+		for _, n := range names {
+			m := forged[n]
+			phy2 := mk(ja)
+			phy2.MIC = lorawan.MIC(m)
+			var got bool
+			c.Eval(1)
+			if p, msg := core.Guard(func() {
+				got, err = phy2.ValidateDownlinkJoinMIC(lorawan.JoinType(reqType), lorawan.EUI64(jEUI), lorawan.DevNonce(devNonce), lorawan.AES128Key(key))
+			}); p || err != nil {
+				c.Violate("C04|joinaccept|validate-error", "%v %s", err, msg)
+				continue
+			}
+			if got != (m == want) {
+				c.Violate(fmt.Sprintf("C04|joinaccept|forged-mic|%s|optneg=%v|lib=%v", n, ja.DLSettings.OptNeg, got), "frame carrying the %s value %x (specification: %x) for reqType %#x: Validate=%v", n, m, want, reqType, got)
+			}
+			c.Shape("joinaccept-forged", n, ja.DLSettings.OptNeg, m == want)
+		}
 	}
 
 	// encryption
